@@ -128,6 +128,10 @@ def install():
             _wrap_group_align(LoaderGroup, name)
         else:
             MISSING.append("LoaderGroup." + name)
+    if os.environ.get("ACRYO_TRACE_TABLES") == "1":
+        from harness import recorder_tbl
+
+        recorder_tbl.install()
 
 
 def _norm_ms(ms):
